@@ -93,27 +93,16 @@ func minMaxDist(p geom.Point, r *geom.Bounds) float64 {
 		return r.Max.Y
 	}
 
-	// This formula can be computed in linear time by precomputing
-	// S = sum{1<=i<=n}(|pi - rMi|^2).
-
-	S := 0.0
-	d := p.X - rMX()
-	S += d * d
-	d = p.Y - rMY()
-	S += d * d
-
-	// Compute MinMaxDist using the precomputed S.
-	min := math.MaxFloat64
-	d1 := p.X - rMX()
-	d2 := p.X - rmX()
-	d = S - d1*d1 + d2*d2
-	if d < min {
-		min = d
-	}
-	d1 = p.Y - rMY()
-	d2 = p.Y - rmY()
-	d = S - d1*d1 + d2*d2
-	if d < min {
+	// Evaluate the two candidate sums directly. (Precomputing
+	// S = sum(|pi - rMi|^2) and then subtracting one term from it can round
+	// to a value below minDist(p, r), which makes the nearest neighbor
+	// search prune the branch that holds the nearest object.)
+	dMX := p.X - rMX()
+	dMY := p.Y - rMY()
+	dmX := p.X - rmX()
+	dmY := p.Y - rmY()
+	min := dmX*dmX + dMY*dMY
+	if d := dMX*dMX + dmY*dmY; d < min {
 		min = d
 	}
 
